@@ -197,6 +197,37 @@ func runC04(c *ctx) {
 			}
 		}
 	}
+	// fixed cases: relationships that do not name their owning type, names that contain
+	// a comma, a mixed collection whose later member's type has no selection entry
+	{
+		art := typeSpec{name: "articles", noFrom: true, fields: []fieldSpec{{name: "title", code: 1}, {name: "body", code: 1},
+			{rel: true, name: "author", toOne: true, target: "people"}, {rel: true, name: "tags", target: "people"}}}
+		ppl := typeSpec{name: "people", fields: []fieldSpec{{name: "first", code: 1}, {name: "last", code: 1}, {name: "last,first", code: 1},
+			{rel: true, name: "boss", toOne: true, target: "people"}}}
+		com := typeSpec{name: "comments", noFrom: true, fields: []fieldSpec{{name: "body", code: 1}, {name: "ip", code: 1},
+			{rel: true, name: "author", toOne: true, target: "people"}}}
+		sc := schemaSpec{types: []typeSpec{art, ppl, com}, wrapped: map[string]bool{}}
+		a1 := resSpec{tn: "articles", ops: []setOp{{"id", "a1"}, {"title", "t"}, {"body", "b"}, {"author", "p1"}, {"tags", []string{"t2", "t1"}}}}
+		p1 := resSpec{tn: "people", ops: []setOp{{"id", "p1"}, {"first", "f"}, {"last", "l"}, {"last,first", "lf"}, {"boss", "p2"}}}
+		c1 := resSpec{tn: "comments", ops: []setOp{{"id", "c1"}, {"body", "cb"}, {"ip", "::1"}, {"author", "p1"}}}
+		allRD := map[string][]string{"articles": {"author", "tags"}, "people": {"boss"}, "comments": {"author"}}
+		for _, sel := range []map[string][]string{
+			{"articles": {"title", "author", "tags"}, "people": {"last,first"}},
+			{"articles": {"body", "author"}, "people": {"first", "x,boss"}},
+			{"articles": {"body", "author"}},
+			{"comments": {"ip"}, "people": {}},
+			{"articles": {"tags"}, "people": {"first", "last"}, "comments": {"author", "body"}},
+		} {
+			for _, order := range [][]resSpec{{a1, c1}, {c1, a1}, {a1, c1, a1}} {
+				d := docSpec{sc: sc, dataKind: "resources", prepath: "/p", urlFrags: []string{"articles"}, fields: sel, relData: allRD,
+					data: order, included: []resSpec{p1}}
+				c04Case(c, d, "fixed")
+			}
+			d := docSpec{sc: sc, dataKind: "resource", prepath: "", urlFrags: []string{"articles", "a1"}, fields: sel, relData: allRD,
+				data: []resSpec{a1}, included: []resSpec{p1, c1}}
+			c04Case(c, d, "fixed")
+		}
+	}
 	n := 200
 	if c.thorough() {
 		n = 5000
